@@ -192,6 +192,7 @@ func session(args []string) error {
 		detail["op"] = "session"
 		detail["what"] = what
 		detail["step"] = step
+		detail["behaviour"] = behaviours
 		detail["history"] = append([]string{}, history...)
 		ev.Emit(detail)
 	}
@@ -437,7 +438,7 @@ func session(args []string) error {
 					if mism > 20000 {
 						continue
 					}
-					ev.Emit(obj{"op": "rel", "session": true, "step": n, "history": append([]string{}, history...), "call": c.name, "A": want[a].tree.JSON(), "B": want[b].tree.JSON(),
+					ev.Emit(obj{"op": "rel", "session": true, "behaviour": behaviours, "step": n, "history": append([]string{}, history...), "call": c.name, "A": want[a].tree.JSON(), "B": want[b].tree.JSON(),
 						"got": got, "out": out, "exp": exp, "l2": l2&c.bit != 0, "a": a + 1, "b": b + 1})
 				}
 			}
@@ -451,12 +452,12 @@ func session(args []string) error {
 				}
 				if (ab&4 != 0) != (ba&2 != 0) {
 					mism++
-					ev.Emit(obj{"op": "dual", "session": true, "step": n, "history": append([]string{}, history...), "calls": "A.Within(B) / B.Contains(A)",
+					ev.Emit(obj{"op": "dual", "session": true, "behaviour": behaviours, "step": n, "history": append([]string{}, history...), "calls": "A.Within(B) / B.Contains(A)",
 						"A": want[a].tree.JSON(), "B": want[b].tree.JSON(), "r1": fmt.Sprint(ab&4 != 0), "r2": fmt.Sprint(ba&2 != 0)})
 				}
 				if a < b && (ab&1 != 0) != (ba&1 != 0) {
 					mism++
-					ev.Emit(obj{"op": "dual", "session": true, "step": n, "history": append([]string{}, history...), "calls": "A.Intersects(B) / B.Intersects(A)",
+					ev.Emit(obj{"op": "dual", "session": true, "behaviour": behaviours, "step": n, "history": append([]string{}, history...), "calls": "A.Intersects(B) / B.Intersects(A)",
 						"A": want[a].tree.JSON(), "B": want[b].tree.JSON(), "r1": fmt.Sprint(ab&1 != 0), "r2": fmt.Sprint(ba&1 != 0)})
 				}
 			}
